@@ -29,6 +29,11 @@ type Recipe struct {
 	Crash    string              `json:"crash,omitempty"`    // call boundary at which the box SIGKILLs itself
 	Dump     bool                `json:"dump,omitempty"`     // attach a delta dump of the committed state
 	NoIndex  bool                `json:"no_index,omitempty"` // do not wait for the tx indexer
+	// Concurrent: transactions a second goroutine sends to CheckTx through
+	// Tendermint's real mempool connection (the shared local-client mutex)
+	// while the block is being applied; where they land between the consensus
+	// calls is up to the scheduler.
+	Concurrent [][]byte `json:"concurrent,omitempty"`
 }
 
 // Boundary names used by Inject and Crash:
